@@ -59,7 +59,7 @@ def run(ctx):
     ctx.cov["rule"] = ("(a) lexer: exact correspondence of the number of handle() calls between model and implementation on the C04 string spaces, and the oracle handle ≤ 2·|text|+1 on "
                        "the implementation; (b)+(c) %d scaling families (items, operator chains, IN lists, VALUES rows, statements, joins, CASE arms, UNION, DDL columns, blanks and comments, "
                        "long literals, nesting, and near-misses that fail late) at sizes n, 2n, 4n, 8n: deterministic counters observed by wrapping FSMMachine.handle, every TokenScanner "
-                       "method and the token list of every cursor from outside — handle calls, cursor-method calls, token-list element reads (a slice or iteration of k elements counts k), largest backward move of a cursor — must at most double (+ a constant) when the input doubles, and no "
+                       "method and the token list of every cursor from outside — handle calls, cursor-method calls, token-list element reads (a slice or iteration of k elements counts k), Python-level calls inside the library (sys.setprofile: total work, e.g. rebuilt nodes), largest backward move of a cursor — must at most double (+ a constant) when the input doubles, and no "
                        "cursor may move backwards; wall-clock growth exponent (best of several repeats) must stay below 1.6, confirmed three times before it counts" % len(FAMILIES))
     ctx.assumptions += ["seconds are not modelled; timing is judged only through the growth exponent with repeated confirmation", "the parser's cursor-operation bound is validated by measurement, not proved"]
     r = ctx.rng.fork("c19")
@@ -91,11 +91,11 @@ def run(ctx):
         if len(rows) < 2:
             continue
         ctx.count("family:" + name + ":" + rows[0][1].split(":")[0])
-        ctx.sample({"family": name, "sizes": [x[0] for x in rows], "handle": [x[2]["handle"] for x in rows], "cursor": [x[2]["cursor"] for x in rows], "reads": [x[2]["reads"] for x in rows]}, limit=20)
+        ctx.sample({"family": name, "sizes": [x[0] for x in rows], "handle": [x[2]["handle"] for x in rows], "cursor": [x[2]["cursor"] for x in rows], "reads": [x[2]["reads"] for x in rows], "calls": [x[2]["calls"] for x in rows]}, limit=60)
         if any(x[2]["backwards"] > 0 for x in rows):
             pfam.report(ctx, "cursor-moved-backwards", {"kind": "input", "entry": "parse_statements", "dialect": "MYSQL", "input": FAMILIES[name](sizes[0]), "family": name,
                                                         "observed": [x[2] for x in rows], "oracle": "c19: the token cursor only moves forward", "how_found": "family"})
-        for key in ("handle", "cursor", "reads"):
+        for key in ("handle", "cursor", "reads", "calls"):
             for (n1, _, c1), (n2, _, c2) in zip(rows, rows[1:]):
                 growth = len(FAMILIES[name](n2)) / len(FAMILIES[name](n1))     # the text grows a little faster than n (longer numerals)
                 if c2[key] > growth * 1.1 * c1[key] + 64:
